@@ -140,6 +140,14 @@ def check_outgoing_calls(rep, fb):
         rep.ob("own.calls-allow-listed", cr.name, not bad, "; ".join(bad[:5]) or "%d call sites, all inside allow-listed deterministic callee families" % total)
 
 
+def _retag_opaque(v, tag):
+    if isinstance(v, tuple) and v and v[0] == "opaque" and len(v) == 2 and isinstance(v[1], str):
+        return ("opaque", v[1] + tag)
+    if isinstance(v, tuple) and v and v[0] == "struct":
+        return ("struct", v[1], {k: _retag_opaque(x, tag) for k, x in v[2].items()})
+    return v
+
+
 def check_clone_bodies(rep, fb, crates=None):
     """C16 (ii): every Clone::clone returns a field-wise copy of *self (interpreted on the term domain)."""
     from .modes import run_plain, values_equal
@@ -194,7 +202,20 @@ def check_clone_bodies(rep, fb, crates=None):
             if cf is not None:
                 ctx, F, tag = ctxs[0]
                 try:
-                    ip, paths = run_plain(fb, cr, cf, ["dst", "src"], ctx, F)
+                    # the destination's opaque parts (the cipher, generic fields) get an identity of their
+                    # own: an opaque value is otherwise known by its type only, and a clone_from that
+                    # keeps the destination's cipher would compare equal to the source
+                    def build(ip_, st_, cf=cf, cr=cr):
+                        from .kernels import abstract_value
+                        args = []
+                        for i, nm in ((1, "dst"), (2, "src")):
+                            args.append(abstract_value(ip_, cr, st_, cf["locals"][i]["ty"], nm))
+                        if ("A", "dst") in st_.heap:
+                            st_.heap[("A", "dst")] = _retag_opaque(st_.heap[("A", "dst")], "@dst")
+                        cells = {c[1]: c for c in st_.heap if c[0] == "A"}
+                        return args, cells
+                    from .kernels import run_method
+                    ip, paths = run_method(fb, cr, cf, build, ctx, F)
                     ok = len(paths) == 1
                     detail = "clone_from(&mut self, src) leaves *self equal to *src field by field"
                     if ok:
@@ -477,6 +498,7 @@ CONTROLS = [
     ("own.no-shared-static", "LAST"),
     ("own.fields-by-value", "SharedState"),
     ("own.clone-fieldwise", "Counter"),
+    ("own.clone-fieldwise", "KeepsKey<C>::clone_from"),
     ("own.calls-allow-listed", "bmsa_fixtures"),
     ("leak.debug-opaque", "Leaky"),
     ("leak.debug-opaque", "DerivedLeak"),
